@@ -774,6 +774,9 @@ func (x *consumerController) fail(ctx *ReceiveContext, stage ReliableDeliverySta
 // a momentary overload and restart the controller. The debug log is
 // therefore the only remaining action.
 func (x *consumerController) tell(ctx *ReceiveContext, to *PID, message any) {
+	if reliableSimEnabled && reliableSimIntercept(ctx.Self(), to, message) {
+		return
+	}
 	if err := ctx.Self().Tell(context.WithoutCancel(ctx.Context()), to, message); err != nil {
 		ctx.Logger().Debugf("consumer controller for endpoint=%s lost message to %s: %v", x.consumer.Name(), to.Name(), err)
 	}
